@@ -50,6 +50,10 @@ func referenceWrite(decls []generator.Declaration) string {
 // contentFor derives the content from the ID (equal IDs carry equal content);
 // half of the contents contain '%' sequences and a trailing newline of their own.
 func contentFor(id string) string {
+	// distinct IDs may carry the SAME content: each is still written once ("a" and "A" share theirs)
+	if id == "a" || id == "A" || id == "Aa" || id == "aB" {
+		return "<shared content>"
+	}
 	if len(id)%2 == 0 {
 		return "<" + id + "> 100% done %d %% %!s\n"
 	}
@@ -209,7 +213,7 @@ func checkC19(cfg *core.Config) int {
 		Evaluations: rep.Counter("calls"),
 		Exhaustive:  true,
 		Rule: fmt.Sprintf("exhaustive: every declaration list of length 0..%d over IDs %q x priority {true,false}, content determined by ID (the space is closed under permutation); random: %d lists of length 1..92 over a pool of %d IDs with 3 random permutations each. Each output is compared with an order-independent reference implementation. A case counts as distinct non-trivial when it has >=2 distinct IDs and a duplicated ID or an ID with mixed priorities.", maxLen, alphabet, nRandom, len(pool)),
-		Assumptions: []string{"equal IDs carry equal content (the property's precondition)", "reference implementation in monitors/c19.go is the specification"},
+		Assumptions: []string{"equal IDs carry equal content (the property's precondition); some distinct IDs share one content", "reference implementation in monitors/c19.go is the specification"},
 		Extra:       map[string]any{"exhaustive_max_len": maxLen, "alphabet": alphabet},
 	})
 }
